@@ -92,6 +92,32 @@ def r13_1(ctx: Ctx) -> RuleResult:
                    "versa): non-singular queries and logical functions are not rejected for the alias",
                    construct=f"COMPARISON_OPERATORS: {alias} vs {std}", file=parser.module.relpath,
                    qualname=parser.qualname + ".COMPARISON_OPERATORS")
+    # the alias binds as tightly as the standard spelling: same entry in the precedence table (a missing entry is
+    # the lowest precedence, and `a && b <> 1` would then group as `(a && b) <> 1`)
+    try:
+        prec = ctx.folder.class_attr(parser, "PRECEDENCES")
+        lowest = ctx.folder.class_attr(parser, "PRECEDENCE_LOWEST")
+    except NotConst as err:
+        raise AnalysisError(f"R13.1: Parser.PRECEDENCES cannot be folded: {err}") from err
+    tok_of: Dict[str, List[str]] = {}
+    for tok, op in ops.items():
+        tok_of.setdefault(op, []).append(tok)
+    where = f"{parser.module.relpath}:{parser.node.lineno}"
+    for alias, std in OPERATOR_ALIASES:
+        for ta_ in tok_of.get(alias, []):
+            for ts_ in tok_of.get(std, []):
+                pa, ps_ = prec.get(ta_, lowest), prec.get(ts_, lowest)
+                if pa == ps_:
+                    rr.ok(where, f"`{alias}` ({ta_}) has the precedence of `{std}` ({ps_})")
+                else:
+                    rr.bad(None, None, f"`{alias}` (token {ta_}) has precedence {pa} but `{std}` (token {ts_}) has {ps_}"
+                           + (" (no entry in Parser.PRECEDENCES: the lowest precedence)" if ta_ not in prec else "")
+                           + f": next to `&&` / `||` the alias groups differently, `@.b && @.a {alias} 1` is `(@.b && @.a) {alias} 1`",
+                           construct=f"PRECEDENCES: {alias} vs {std}", file=parser.module.relpath, qualname=parser.qualname + ".PRECEDENCES")
+    for tok, op in sorted(ops.items()):
+        if tok not in prec:
+            rr.bad(None, None, f"the binary operator `{op}` (token {tok}) has no entry in Parser.PRECEDENCES", construct=f"PRECEDENCES lacks {tok}",
+                   file=parser.module.relpath, qualname=parser.qualname + ".PRECEDENCES")
     return rr
 
 
